@@ -30,6 +30,7 @@ __all__ = [
 
 import os as _os
 _DEBUG = _os.environ.get("SYMX_DEBUG") == "1"
+_DEBUG_FORKS = {} if _os.environ.get("SYMX_FORKS") == "1" else None
 
 
 class Unsupported(BaseException):
@@ -583,7 +584,11 @@ def _map_char(c, key, fn):
             if ctx.decide_b(ch_eq(c, chr(cp))):
                 return list(img)
             dom = ranges_minus(dom, ((cp, cp),))
-    # single-character images: piecewise c + delta
+    # single-character images: piecewise c + delta (cached per term/domain/mapping)
+    ck = (c.z.get_id(), dom, key, ctx.alphabet)
+    hit = _mapchar_cache.get(ck)
+    if hit is not None:
+        return [hit[0]]
     term = c.z
     newdom = []
     pieces = []
@@ -595,12 +600,16 @@ def _map_char(c, key, fn):
         if delta != 0:
             pieces.append((delta, inter))
     if not pieces:
-        return [SymChar(c.z, dom)]
-    for delta, inter in pieces:
-        term = z3.If(in_ranges(c.z, inter), c.z + delta, term)
-    return [SymChar(term, ranges_norm(newdom))]
+        r = SymChar(c.z, dom)
+    else:
+        for delta, inter in pieces:
+            term = z3.If(in_ranges(c.z, inter), c.z + delta, term)
+        r = SymChar(term, ranges_norm(newdom))
+    _mapchar_cache[ck] = (r, c.z)
+    return [r]
 
 
+_mapchar_cache = {}
 _map_cache = {}
 
 
@@ -1301,6 +1310,16 @@ class Explorer:
             self.stats["unknown"] += 1
             raise Unsupported("solver unknown on a branch condition")
         # two-sided
+        if _DEBUG_FORKS is not None:
+            import sys as _sys
+            f = _sys._getframe(1)
+            site = []
+            while f is not None and len(site) < 3:
+                fn = f.f_code.co_filename
+                if "/symx/core.py" not in fn and "/symx/framework" not in fn:
+                    site.append("%s:%d" % (fn.split("/")[-1], f.f_lineno))
+                f = f.f_back
+            _DEBUG_FORKS[" < ".join(site)] = _DEBUG_FORKS.get(" < ".join(site), 0) + 1
         idx = self.two_sided_seen
         self.two_sided_seen += 1
         closed = False
